@@ -28,7 +28,7 @@ TRUSTED = [
 ASSUMPTIONS = [
     'object graphs stay forests: an object is attached at one place at a time and never below itself (sharing and cycles are outside)',
     'only one class has dependent methods; sub-objects have none; methods only log and, on chosen invocations, raise (caught by the harness around the triggering assignment); values are integers, object names come from a small set',
-    'path elements are object-valued parameters, the leaf is an integer parameter or `param` (only at depth 1); no slots (a.x:bounds), no batching',
+    'path elements are object-valued parameters, the leaf is an integer parameter or `param` (only at depth 1); no slots (a.x:bounds); batching only as param.update / batch_call_watchers on one object around assignments to that object (distinct keys), no nesting',
 ]
 RULE = ('directed histories (the design probes p5, p23 and their variants) + random histories: 1-2 dependent methods with 1-3 path '
         'specs of depth 1-3 under the same or different sub-objects (leaf x / y / param), 3-6 initial objects, a top object '
@@ -36,7 +36,7 @@ RULE = ('directed histories (the design probes p5, p23 and their variants) + ran
         'fresh objects, and leaf assignments on attached and detached objects (same and different values).  After every step '
         'the invocation log (with the values read) and the watcher tables and dynamic_watchers of all objects are compared with '
         'the model and judged by the oracle.  non-trivial = a method fired at least once and >=3 steps judged')
-COVERAGE_TARGETS = ['step:method-raised', 'depth:1', 'depth:2', 'depth:3', 'deps:one', 'deps:several', 'leaf:param', 'fired',
+COVERAGE_TARGETS = ['step:update', 'step:batch', 'step:method-raised', 'depth:1', 'depth:2', 'depth:3', 'deps:one', 'deps:several', 'leaf:param', 'fired',
                     'step:attach', 'step:replace', 'step:detach', 'step:leaf-attached', 'step:leaf-detached', 'step:replace-equal']
 
 LOG = []
@@ -130,6 +130,15 @@ def run_impl(case):
                     ids[id(o)] = len(objs)
                     objs.append(o)
                     case['_cls_of'].append(st['cls'])
+                elif st['op'] == 'update':
+                    tgt = objs[st['o']]
+                    kw = {k: _jval(v, objs) for k, v in st['kvs']}
+                    if st.get('via') == 'batch':
+                        with param.parameterized.batch_call_watchers(tgt):
+                            for k, v in kw.items():
+                                setattr(tgt, k, v)
+                    else:
+                        tgt.param.update(**kw)
                 else:
                     setattr(objs[st['o']], st['p'], f"n{st['v']}" if st['p'] == 'name' else _jval(st['v'], objs))
             except Boom:
@@ -162,6 +171,10 @@ def _new(cls, name=0, a=None, b=None, x=0, y=0):
 
 def _set(o, p, v):
     return {'op': 'set', 'o': o, 'p': p, 'v': v}
+
+
+def _upd(o, via='update', **kv):
+    return {'op': 'update', 'o': o, 'kvs': [[k, v] for k, v in kv.items()], 'via': via}
 
 
 def _ref(o):
@@ -280,6 +293,33 @@ def _gen_case(rng):
         detached = [i for i in range(len(sh.cls)) if i not in reach]
         if r < 0.12:
             emit_new(0, attach=rng.random() < 0.6)
+        elif r < 0.30:
+            # a batch of assignments on one object: param.update / batch_call_watchers
+            holder = rng.choice(reach) if (rng.random() < 0.9 or not detached) else rng.choice(detached)
+            keys = rng.sample(OBJP + INTP, rng.randint(2, 3))
+            kvs = []
+            used = []
+            for k in keys:
+                if k in OBJP:
+                    old = sh.vals[holder][k]
+                    q = rng.random()
+                    if q < 0.15:
+                        v = None
+                    else:
+                        # often an equal-valued replacement: a fresh object copying the attached one's values
+                        kw = {'name': rng.choice([0, 0, 1]), 'x': rng.choice([0, 1, 2]), 'y': rng.choice([0, 1, 2])}
+                        if old is not None and rng.random() < 0.5:
+                            ov = sh.vals[old['ref']]
+                            kw = {'name': ov['name'], 'x': ov['x'], 'y': ov['y']}
+                        st = _new(0, **kw)
+                        steps.append(st)
+                        v = _ref(sh.new(st))
+                else:
+                    v = sh.vals[holder][k] if rng.random() < 0.25 else rng.choice([0, 1, 2, 3])
+                kvs.append([k, v])
+            st = {'op': 'update', 'o': holder, 'kvs': kvs, 'via': rng.choice(['update', 'update', 'batch'])}
+            steps.append(st)
+            _apply(sh, st)
         elif r < 0.55:
             # attach / replace / detach at some level
             holder = rng.choice(reach) if (rng.random() < 0.85 or not detached) else rng.choice(detached)
@@ -340,6 +380,19 @@ def _directed():
     yield {'classes': _classes([_m('m0', 'a.x', 'a.y', raises=[1, 3]), _m('m1', 'a.y', raises=[2])]), 'steps': [
         _new(0, x=1), _new(0, x=2, y=2), _new(1, a=0), _set(2, 'a', _ref(1)), _set(1, 'y', 3), _set(0, 'y', 4),
         _set(1, 'y', 5), _set(2, 'a', _ref(0)), _set(0, 'x', 3)]}
+    # one watcher covering several parameters of a sub-object; batched changes whose FIRST event is an
+    # equal-valued replacement while another one really changes
+    yield {'classes': _classes([_m('m0', 'a.a.x', 'a.b.x', 'a.y')]), 'steps': [
+        _new(0, x=1), _new(0, x=10), _new(0, a=0, b=1, y=100), _new(1, a=2),
+        _new(0, x=1), _new(0, x=12), _upd(2, a=_ref(4), b=_ref(5)),
+        _new(0, x=1), _upd(2, a=_ref(6), y=101),
+        _new(0, x=1), _upd(2, 'batch', a=_ref(7), y=102),
+        _new(0, x=1), _new(0, x=12), _upd(2, a=_ref(8), b=_ref(9)),
+        _set(8, 'x', 2), _set(9, 'x', 13), _set(5, 'x', 0)]}
+    # two top-level sub-objects of one method replaced in a single batch
+    yield {'classes': _classes([_m('m0', 'a.x', 'b.y')]), 'steps': [
+        _new(0, x=1), _new(0, y=1), _new(1, a=0, b=1), _new(0, x=2), _new(0, y=2), _upd(2, a=_ref(3), b=_ref(4)),
+        _new(0, x=2), _new(0, y=3), _upd(2, a=_ref(5), b=_ref(6)), _new(0, x=2), _new(0, y=3), _upd(2, 'batch', a=_ref(7), b=_ref(8))]}
     # rejected values end the history
     yield {'classes': _classes([_m('m0', 'a.x')]), 'steps': [_new(0), _new(1, a=0), _set(1, 'a', 3)]}
     yield {'classes': _classes([_m('m0', 'a.x')]), 'steps': [_new(0), _new(1, a=0), _set(0, 'name', 1)]}
@@ -358,13 +411,20 @@ def cases(rng, tier, worker, nworkers):
 
 # ------------------------------------------------------------------ reporting
 
+def _apply(sh, st):
+    if st['op'] == 'new':
+        return sh.new(st)
+    if st['op'] == 'update':
+        for k, v in st['kvs']:
+            sh.set(st['o'], k, v)
+    else:
+        sh.set(st['o'], st['p'], st['v'])
+
+
 def _replay_shadow(case, upto):
     sh = _Shadow()
     for st in case['steps'][:upto]:
-        if st['op'] == 'new':
-            sh.new(st)
-        else:
-            sh.set(st['o'], st['p'], st['v'])
+        _apply(sh, st)
     return sh
 
 
@@ -378,6 +438,10 @@ def tags(case, impl):
             o = sh.new(st)
             if st['cls'] == 1:
                 tops.append(o)
+            continue
+        if st['op'] == 'update':
+            t.append('step:update' if st.get('via') != 'batch' else 'step:batch')
+            _apply(sh, st)
             continue
         reach = [x for tp in tops for x in sh.reachable(tp)]
         old = sh.vals[st['o']][st['p']]
@@ -408,7 +472,11 @@ def shrink(case):
     steps = case['steps']
     # dropping a step must keep object numbering: only `set` steps and trailing steps are dropped
     for i in range(len(steps) - 1, -1, -1):
-        if steps[i]['op'] == 'set':
+        if steps[i]['op'] == 'update' and len(steps[i]['kvs']) > 1:
+            for j in range(len(steps[i]['kvs'])):
+                kv = steps[i]['kvs']
+                yield dict(case, steps=steps[:i] + [dict(steps[i], kvs=kv[:j] + kv[j + 1:])] + steps[i + 1:])
+        if steps[i]['op'] in ('set', 'update'):
             yield dict(case, steps=steps[:i] + steps[i + 1:])
     if steps:
         yield dict(case, steps=steps[:-1])
@@ -462,6 +530,16 @@ def classify(case, impl, fail):
         raiser = st_obs['calls'][-1][1]
         if raiser != name and len([x for c in case['classes'] for x in c['methods']]) >= 2:
             return 'raise-in-one-method-skips-rebinding-of-another'
+    # two (or more) root attributes of the method assigned on the owner in ONE batch: the watcher rebuilt by
+    # the first assignment's _update_deps is queued, the second assignment's _update_deps removes it and
+    # queues its own — the flush runs both, the method is called twice
+    st = case['steps'][step]
+    mc = re.search(r'expected(?:=|<=)1 got=(\d+)', why)
+    if kind == 'fires' and st['op'] == 'update' and st['o'] == owner and mc and int(mc.group(1)) >= 2:
+        roots = {sp['path'][0] for sp in meth['specs']}
+        hit = [k for k, _ in st['kvs'] if k in roots]
+        if len(hit) >= 2 and int(mc.group(1)) <= len(hit):
+            return 'batch-two-roots-stale-queued-watcher'
     # the graph before and after the failing step
     for upto in (step, step + 1):
         sh = _replay_shadow(case, upto)
